@@ -30,7 +30,7 @@ def bounds(tier):
 
 
 def configs(tier, seed):
-    out = [dict(kind="contract", name=n, timeout=240 if tier == "quick" else 900) for n in CONTRACTS]
+    out = [dict(kind="contract", name=n, timeout=600 if tier == "quick" else 1500) for n in CONTRACTS]
     out.append(dict(kind="concrete"))
     out.append(dict(kind="validators"))
     return out
@@ -62,6 +62,7 @@ def run_config(cfg):
     from symx import chrunner
     from props import c20_contracts as C
     fn = getattr(C, cfg["name"])
+    C.warm()
     r = chrunner.run_contract(fn, per_condition_timeout=cfg["timeout"], per_path_timeout=60)
     rep.paths = 1
     rep.nontrivial_paths = 1
